@@ -257,6 +257,9 @@ CaughtUp == up /\ cur = 0 /\ next > tip
 (* after any crash schedule followed by catch-up the index is the function of the chain *)
 Converges == CaughtUp => kv = IndexSkip(chain, start, tip, skipped)
 
+(* the same without the allowance for known deviations: what an enabled deviation must violate *)
+ConvergesStrict == CaughtUp => kv = Index(chain, start, tip)
+
 (* ... and catch-up is always reached (crashes are finitely many) *)
 EventuallyCaughtUp == <>[](start # -1 => CaughtUp)
 
